@@ -9,14 +9,15 @@ PARTIAL by design (DESIGN.md C19).  Proved here, over `Model/Lint/{Regex,LineRul
     (`typo_witnesses`, `validator_witnesses`), hence `typo_seeded_anywhere`;
   * seeded-edit and undo theorems for the modelled line rules; `exit_is_count`.
 NOT modelled (covered by seeded edits on the implementation in harness/c19.py only): the token-level
-parsers (namespace versus path, forward declarations), MultiConditionChecker, SingleLineValidator,
-strip_comments_and_strings, include order / first include (C20 models the comparison).
+parsers (namespace versus path, forward declarations), include order / first include (C20 models the
+comparison).
 The snapshot's dead rule "Empty line after #pragma once" is repaired in /repo; the model follows the
 repaired code and `seeded_blank_after_pragma` states the rule as a seeded-edit theorem.
 -/
 import SymbolVerif.Proofs.RegexLemmas
 import SymbolVerif.Proofs.LineRulesLemmas
 import SymbolVerif.Proofs.DepsLemmas
+import SymbolVerif.Proofs.ValidatorsLemmas
 import SymbolVerif.Generated.LintTables
 namespace SymbolVerif.C19
 open SymbolVerif.Lint.Regex SymbolVerif.Lint.Rules
@@ -312,6 +313,132 @@ theorem seeded_blank_after_pragma (pre rest : List Str) (inc : Str)
 example : AfterNotice (stateAfter (pragmaOnce true) (pragmaOnce true).reset 1
     ["/**".toList, "*** Copyright".toList, "**/".toList, [] ]) := by
   refine ⟨?_, ?_, ?_⟩ <;> decide +kernel
+
+/-! ### strip_comments_and_strings -/
+
+open SymbolVerif.Lint.Strip in
+/-- text outside comments and literals is preserved, in order: whatever stands before the first character
+    that can open a comment or a literal (`/`, `"`, `'`) comes out unchanged, and the rest is stripped on
+    its own -/
+theorem strip_preserves_plain_prefix (a b : List Char) (ha : ∀ c ∈ a, plainChar c = true) : strip (a ++ b) = a ++ strip b :=
+  strip_append_plain a b ha
+
+open SymbolVerif.Lint.Strip in
+/-- a line without `/`, `"`, `'` is its own stripped form (so stripping it again changes nothing) -/
+theorem strip_of_plain (a : List Char) (ha : ∀ c ∈ a, plainChar c = true) : strip a = a ∧ strip (strip a) = strip a := by
+  rw [strip_plain a ha]; exact ⟨rfl, strip_plain a ha⟩
+
+open SymbolVerif.Lint.Strip in
+/-- a witness inserted outside any comment / literal (nothing before it opens one) survives stripping -/
+theorem stripped_witness_survives (pre w post : List Char) (hp : ∀ c ∈ pre, plainChar c = true) (hw : ∀ c ∈ w, plainChar c = true) :
+    strip (pre ++ w ++ post) = pre ++ w ++ strip post := by
+  rw [List.append_assoc, strip_append_plain pre _ hp, strip_append_plain w _ hw, List.append_assoc]
+
+open SymbolVerif.Lint.Strip in
+/-- ... so a rule that searches the STRIPPED line for an anchor-free pattern fires for the seeded line:
+    `search_context` restated through the stripper -/
+theorem stripped_search_context (r : RE) (ha : anchorFree r = true) (w : List Char) (hw : fullMatch r w = true)
+    (pre post : List Char) (hp : ∀ c ∈ pre, plainChar c = true) (hpw : ∀ c ∈ w, plainChar c = true) :
+    search r (strip (pre ++ w ++ post)) = true := by
+  rw [stripped_witness_survives pre w post hp hpw]
+  exact search_context r ha w hw pre (strip post)
+
+/-! ### MultiConditionChecker -/
+
+/-- the reports of a file are exactly the (check, line) pairs whose check evaluates to true on the stripped
+    and the raw line -/
+theorem mcc_reports_iff (P : MccPatterns) (path : Str) (lines : List Str) (k n : Nat) :
+    ⟨.multiCondition k, n⟩ ∈ run (multiCondition P path) lines ↔
+      ∃ i l, n = i + 1 ∧ lines[i]? = some l ∧ (mccChecks P path (Lint.Strip.strip l) l)[k]? = some true :=
+  mem_run_multiCondition P path lines k n
+
+/-- shape shared by the checks "pattern A is found on the stripped line and pattern B is not": a witness of
+    A inserted into line `i` outside any comment / literal is reported at that line unless B is found too -/
+theorem seeded_stripped_witness (P : MccPatterns) (path : Str) (k : Nat) (A B : RE)
+    (hk : ∀ line raw, (mccChecks P path line raw)[k]? = some (search A line && !search B line))
+    (lines : List Str) (i : Nat) (pre w post : Str) (hi : lines[i]? = some (pre ++ post))
+    (ha : anchorFree A = true) (hw : fullMatch A w = true)
+    (hp : ∀ c ∈ pre, Lint.Strip.plainChar c = true) (hpw : ∀ c ∈ w, Lint.Strip.plainChar c = true)
+    (hB : search B (Lint.Strip.strip (pre ++ w ++ post)) = false) :
+    ⟨.multiCondition k, i + 1⟩ ∈ run (multiCondition P path) (lines.set i (pre ++ w ++ post)) := by
+  rw [mcc_reports_iff]
+  refine ⟨i, pre ++ w ++ post, rfl, set_get lines i _ _ hi, ?_⟩
+  rw [hk, stripped_search_context A ha w hw pre post hp hpw, hB]
+  rfl
+
+/-- `enum` without `class` (check_enum_class) -/
+theorem seeded_enum_without_class (P : MccPatterns) (path : Str) (lines : List Str) (i : Nat) (pre w post : Str)
+    (hi : lines[i]? = some (pre ++ post)) (ha : anchorFree P.enum = true) (hw : fullMatch P.enum w = true)
+    (hp : ∀ c ∈ pre, Lint.Strip.plainChar c = true) (hpw : ∀ c ∈ w, Lint.Strip.plainChar c = true)
+    (hB : search P.enum_class (Lint.Strip.strip (pre ++ w ++ post)) = false) :
+    ⟨.multiCondition 4, i + 1⟩ ∈ run (multiCondition P path) (lines.set i (pre ++ w ++ post)) :=
+  seeded_stripped_witness P path 4 P.enum P.enum_class (fun _ _ => rfl) lines i pre w post hi ha hw hp hpw hB
+
+/-- `operator bool` without `explicit` (check_explicit_operator_bool) -/
+theorem seeded_operator_bool_not_explicit (P : MccPatterns) (path : Str) (lines : List Str) (i : Nat) (pre w post : Str)
+    (hi : lines[i]? = some (pre ++ post)) (ha : anchorFree P.operator_bool = true) (hw : fullMatch P.operator_bool w = true)
+    (hp : ∀ c ∈ pre, Lint.Strip.plainChar c = true) (hpw : ∀ c ∈ w, Lint.Strip.plainChar c = true)
+    (hB : search P.operator_bool_with_explicit (Lint.Strip.strip (pre ++ w ++ post)) = false) :
+    ⟨.multiCondition 1, i + 1⟩ ∈ run (multiCondition P path) (lines.set i (pre ++ w ++ post)) :=
+  seeded_stripped_witness P path 1 P.operator_bool P.operator_bool_with_explicit (fun _ _ => rfl) lines i pre w post hi ha hw hp hpw hB
+
+/-- `///` in a `.cpp` file (check_cpp_doxygen_comment looks at the RAW line): wherever the witness is put -/
+theorem seeded_doxygen_in_cpp (P : MccPatterns) (path : Str) (hcpp : endsWithS path ".cpp" = true) (lines : List Str) (i : Nat)
+    (pre w post : Str) (hi : lines[i]? = some (pre ++ post)) (ha : anchorFree P.doxygen_comment = true)
+    (hw : fullMatch P.doxygen_comment w = true) :
+    ⟨.multiCondition 14, i + 1⟩ ∈ run (multiCondition P path) (lines.set i (pre ++ w ++ post)) := by
+  rw [mcc_reports_iff]
+  refine ⟨i, pre ++ w ++ post, rfl, set_get lines i _ _ hi, ?_⟩
+  have h14 : ∀ line raw, (mccChecks P path line raw)[14]? = some (endsWithS path ".cpp" && search P.doxygen_comment raw) :=
+    fun _ _ => rfl
+  rw [h14, hcpp, search_context P.doxygen_comment ha w hw pre post]
+  rfl
+
+/-- the shipped patterns meet the hypotheses of the three theorems above (re-read on every run) -/
+theorem shipped_mcc_patterns_applicable :
+    anchorFree Generated.Lint.mccPatterns.enum = true ∧ fullMatch Generated.Lint.mccPatterns.enum "enum x".toList = true ∧
+    anchorFree Generated.Lint.mccPatterns.operator_bool = true ∧
+    fullMatch Generated.Lint.mccPatterns.operator_bool " operator bool".toList = true ∧
+    anchorFree Generated.Lint.mccPatterns.doxygen_comment = true ∧
+    fullMatch Generated.Lint.mccPatterns.doxygen_comment "///".toList = true := by
+  decide +kernel
+
+/-! ### SingleLineValidator -/
+
+/-- a call split over two lines that would fit on one: the first line ends with `(`, the second one closes
+    the parenthesis (counted on its stripped text), is not a comment, has no brace-with-brackets, and the
+    joined text is narrower than 140 columns - reported with the number of the FIRST line -/
+theorem singleLine_two_lines (s : SingleLineState) (n : Nat) (head tail : Str) (hs : s.numOpen = 0)
+    (ho : opensCall head = true) (hc : startsWith (lstrip tail) "//" = false)
+    (o : Int) (b : Nat) (h : Bool) (hcount : countBrackets (Lint.Strip.strip (lstrip tail)) 1 0 false = (o, b, h))
+    (hclosed : o ≤ 0) (hbr : ¬ (h = true ∧ b > 1))
+    (hw : width (if endsWithS (head ++ lstrip tail) "," = true then head ++ lstrip tail ++ [' '] else head ++ lstrip tail) < 140) :
+    ⟨.singleLine, n⟩ ∈ (singleLineCheck (singleLineCheck s n head).1 (n + 1) tail).2 := by
+  have h1 : (singleLineCheck s n head).1 = ⟨1, n, head⟩ := by
+    simp [singleLineCheck, hs, singleLineStart, ho]
+  rw [h1]
+  have hw' := hw
+  simp only [List.append_assoc] at hw'
+  simp only [singleLineCheck]
+  simp [hc, hcount, hbr, hclosed, hw']
+
+/-- ... as a seeded edit: such a pair of lines put anywhere where no block is open is reported for the file -/
+theorem seeded_split_call (before after : List Str) (head tail : Str)
+    (hs : (stateAfter singleLine singleLine.reset 1 before).numOpen = 0)
+    (ho : opensCall head = true) (hc : startsWith (lstrip tail) "//" = false)
+    (o : Int) (b : Nat) (h : Bool) (hcount : countBrackets (Lint.Strip.strip (lstrip tail)) 1 0 false = (o, b, h))
+    (hclosed : o ≤ 0) (hbr : ¬ (h = true ∧ b > 1))
+    (hw : width (if endsWithS (head ++ lstrip tail) "," = true then head ++ lstrip tail ++ [' '] else head ++ lstrip tail) < 140) :
+    ⟨.singleLine, before.length + 1⟩ ∈ run singleLine (before ++ head :: tail :: after) := by
+  unfold run
+  rw [runFrom_eq, List.mem_append]
+  refine Or.inl ?_
+  rw [checkReports_append, List.mem_append]
+  refine Or.inr ?_
+  simp only [checkReports, List.mem_append]
+  refine Or.inr (Or.inl ?_)
+  have := singleLine_two_lines (stateAfter singleLine singleLine.reset 1 before) (1 + before.length) head tail hs ho hc o b h hcount hclosed hbr hw
+  simpa [singleLine, Nat.add_comm] using this
 
 /-! ### DepsChecker: closure of the rules, and the verdict of `match` -/
 
